@@ -484,3 +484,122 @@ func (g *G) PosPath(env *Env, maxN int) Expr {
 	}
 	return p
 }
+
+// StackedPath: a path whose steps carry 2-3 predicates mixing positional and boolean ones in ANY
+// order (beyond the C03 fragment; used by the metamorphic monitors C04/C05/C10/C12, which need no
+// reference value).
+func (g *G) StackedPath(env *Env) Path {
+	names := env.names()
+	p := g.FreePath(1+g.Intn(3), names)
+	for _, s := range p.Steps {
+		if s.Abbrev == "//" || g.Chance(0.4) {
+			continue
+		}
+		if s.Abbrev == "." || s.Abbrev == ".." {
+			s.Abbrev = ""
+		}
+		n := 2 + g.Intn(2)
+		for i := 0; i < n; i++ {
+			if g.Chance(0.5) {
+				s.Preds = append(s.Preds, g.PosPred(3))
+			} else {
+				s.Preds = append(s.Preds, g.BoolPred(0, env))
+			}
+		}
+	}
+	return p
+}
+
+// FilterStartPath: a path that starts with a filter expression - a parenthesised path or union, possibly
+// with predicates, or a node-set function call - continued with '/' or '//' and further steps.
+func (g *G) FilterStartPath(env *Env) Expr {
+	names := env.names()
+	var start Expr
+	switch g.Intn(4) {
+	case 0:
+		start = xref.Group{X: g.FreePath(1+g.Intn(2), names)}
+	case 1:
+		start = xref.Group{X: bin("|", g.FreePath(1+g.Intn(2), names), g.FreePath(1, names))}
+	case 2:
+		start = xref.Filter{X: xref.Group{X: g.FreePath(1+g.Intn(2), names)}, Preds: []Expr{g.BoolPred(0, env)}}
+	default:
+		start = xref.Filter{X: xref.Group{X: g.FlatPath(names)}, Preds: []Expr{num(1 + g.Intn(3))}}
+	}
+	var steps []*Step
+	if g.Chance(0.5) {
+		steps = append(steps, DSlash())
+	}
+	steps = append(steps, g.FreeStep(names))
+	if g.Chance(0.3) {
+		if g.Chance(0.5) {
+			steps = append(steps, DSlash())
+		}
+		steps = append(steps, g.FreeStep(names))
+	}
+	return Path{Start: start, Steps: steps}
+}
+
+// ArgShape: an argument of arbitrary shape for function calls: paths, arithmetic/comparison/boolean
+// operators applied directly to node-sets, unions, filter expressions, literals.
+func (g *G) ArgShape(env *Env) Expr {
+	names := env.names()
+	ns := func() Expr {
+		switch g.Intn(4) {
+		case 0:
+			return g.RelFlat(names)
+		case 1:
+			return Path{Abs: true, Steps: []*Step{DSlash(), {Axis: "child", Abbrev: "child", Test: g.NodeTest("child", names)}}}
+		case 2:
+			return g.FreePath(1+g.Intn(2), names)
+		default:
+			return g.StackedPath(env)
+		}
+	}
+	switch g.Intn(10) {
+	case 0, 1:
+		return ns()
+	case 2:
+		return bin(g.Pick("+", "-", "*", "div", "mod"), ns(), g.NumLit())
+	case 3:
+		return bin(g.Pick("+", "*"), g.NumLit(), ns())
+	case 4:
+		return bin(g.Pick(ops6...), ns(), ns())
+	case 5:
+		return bin(g.Pick("and", "or"), ns(), ns())
+	case 6:
+		return bin("|", ns(), ns())
+	case 7:
+		return g.FilterStartPath(env)
+	case 8:
+		return g.StrLit()
+	default:
+		return xref.Neg{X: ns()}
+	}
+}
+
+var shapeFuncs = []string{"boolean", "ceiling", "concat", "contains", "count", "ends-with", "floor", "local-name", "lower-case", "name", "normalize-space", "not", "number", "reverse",
+	"starts-with", "string", "string-join", "string-length", "substring", "substring-after", "substring-before", "sum", "translate", "matches", "replace"}
+
+// FuncOverShapes: any function applied to arguments of arbitrary shape (typing ignored).
+func (g *G) FuncOverShapes(env *Env) Expr {
+	f := shapeFuncs[g.Intn(len(shapeFuncs))]
+	ar := xref.FuncArity[f]
+	n := ar[0]
+	if ar[1] < 0 {
+		n += g.Intn(3)
+	} else if ar[1] > ar[0] && g.Chance(0.5) {
+		n = ar[1]
+	}
+	var args []Expr
+	for i := 0; i < n; i++ {
+		a := g.ArgShape(env)
+		switch {
+		case f == "substring" && i >= 1:
+			a = g.FiniteNum()
+		case (f == "matches" || f == "replace") && i == 1:
+			a = str(g.Pick("a", "[0-9]+", "(a)(b)?", "^x", "b*"))
+		}
+		args = append(args, a)
+	}
+	return call(f, args...)
+}
